@@ -5,7 +5,7 @@
     signature widths, a v5 transaction has no Ironwood bundle. [anchors_uniform]: all Sapling
     spends of a bundle carry the same anchor (what the v5/v6 wire format can express). *)
 From V.Lib Require Import Base Hex.
-From V.C04 Require Import Model Spec Corr.
+From V.C04 Require Import Model ModelV4 Spec SpecV4 Corr.
 Local Open Scope N_scope.
 
 Definition len_is (n : nat) (b : bytes) : bool := Nat.eqb (length b) n.
@@ -57,17 +57,33 @@ Definition wf_coins (t : tx) (coins : list coin) : bool :=
      | None => true
      | Some b => is_coinbase b || Nat.eqb (length coins) (length (tb_vin b))
      end.
-Definition wf_sig (s : sigobs) : bool := match s with SG ht _ v sc d => (ht <? 256) && u63b v && shortb sc && len_is 32 d end.
+Definition wf_sig (s : sigobs) : bool := match s with SG ht _ v sc co d => (ht <? 256) && u63b v && shortb sc && shortb co && len_is 32 d end.
 Definition wf_obs (o : obs) : bool :=
   match o with OBS a b c l => len_is 32 a && len_is 32 b && len_is 32 c && forallb wf_sig l end.
+
+(** v3 / v4 *)
+Definition wf_js (t : tx4) : bool :=
+  match t4_js t with
+  | [] => is_nil (t4_jspub t) && is_nil (t4_jssig t)
+  | l => forallb (len_is (jslen (t4_ver t))) l && len_is 32 (t4_jspub t) && len_is 64 (t4_jssig t)
+  end.
+Definition wf_tx4 (t : tx4) : bool :=
+  u32b (t4_branch t) && u32b (t4_lock t) && u32b (t4_expiry t) && wf_opt wf_tb (t4_transp t)
+  && match t4_sap t with None => true | Some b => is_v4 (t4_ver t) && wf_sap b end
+  && wf_js t.
+Definition wf_sig4 (s : sig4obs) : bool :=
+  match s with SG4 ht _ v sc co d => (ht <? 256) && u63b v && shortb sc && shortb co && len_is 32 d end.
+Definition wf_obs4 (o : obs4) : bool :=
+  match o with OBS4 a b c l => len_is 32 a && len_is 32 b && len_is 32 c && forallb wf_sig4 l end.
 
 Definition wf_case (c : case) : bool :=
   match c with
   | CTx _ t coins _ txid auth shsig sigs =>
       wf_tx t && wf_coins t coins && len_is 32 txid && len_is 32 auth && len_is 32 shsig && forallb wf_sig sigs
-  | CMut _ t t' coins coins' o o' =>
-      wf_tx t && wf_tx t' && anchors_uniform t && anchors_uniform t'
+  | CMut f t t' coins coins' o o' =>
+      mut_class_ok f t t' && wf_tx t && wf_tx t' && anchors_uniform t && anchors_uniform t'
       && wf_coins t coins && wf_coins t' coins' && wf_obs o && wf_obs o'
   | CV4Txid _ _ a b => len_is 32 a && len_is 32 b
-  | CV4Mut _ _ _ _ _ a b c d _ => len_is 32 a && len_is 32 b && len_is 32 c && len_is 32 d
+  | CV4Tx _ t o => wf_tx4 t && wf_obs4 o
+  | CV4Mut f t t' o o' => mut4_class_ok f t t' && wf_tx4 t && wf_tx4 t' && wf_obs4 o && wf_obs4 o'
   end.
